@@ -201,7 +201,7 @@ def explore_user(ctx, props, n_prim, n_op=0, n_cyclic=0):
     rng = random.Random(ctx.seed * 104729 + 5)
     viol, dis = [], []
     st = {"runs": 0, "engine_traces_validated": 0, "labels_replayed": 0, "with_literals_deps": 0, "cyclic": 0, "failing": 0,
-          "failing_nonstring_scope": 0}
+          "failing_nonstring_scope": 0, "guarded_literal_arguments": 0}
     distinct = set()
     for i in range(n_prim + n_op + n_cyclic):
         cyc = i >= n_prim + n_op
@@ -216,6 +216,18 @@ def explore_user(ctx, props, n_prim, n_op=0, n_cyclic=0):
             if i % 3 == 0:
                 case["spec"]["nodes"][first]["scope"] = [[2024, "q"], [i], ["a", 1]][(i // 3) % 3]
             st["failing_nonstring_scope"] += any(not isinstance(x, str) for x in case["spec"]["nodes"][first].get("scope", []))
+        if not cyc and i % 6 == 3 and case["spec"]["nodes"]:
+            # every sixth plan, under the default scheduler: a literal that WAITS for a call (add_dependency(call, literal)) and
+            # is an argument of a further call that is requested - the literal is a node the engine has to enqueue itself
+            sp = case["spec"]
+            n0 = len(sp["nodes"])
+            anchor = ([nd["id"] for nd in sp["nodes"] if nd["kind"] == "call"] or [0])[-1]
+            sp["nodes"].append({"id": n0, "kind": "lit", "scope": []})
+            sp["nodes"].append({"id": n0 + 1, "kind": "call", "args": [{"n": n0}], "kwargs": [], "scope": []})
+            sp["deps"].append([anchor, n0])
+            case["output"] = sorted(set(case["output"] or []) | {n0 + 1})
+            case["scheduler"] = "default"
+            st["guarded_literal_arguments"] += 1
         mode = "opcode" if n_prim <= i < n_prim + n_op else "prim"
         seed = rng.randrange(1 << 30)
         r = run_user_case(case, seed, mode=mode)
